@@ -222,4 +222,27 @@ func init() {
 	})
 }
 
+func init() {
+	replayDrivers = append(replayDrivers, replayDriver{
+		match: func(n string) bool {
+			return strings.Contains(n, "getStorageDataFromStorageStringDataJWT#C04.storage-exp") || strings.Contains(n, "GetSigned#C07.cache-record-valid")
+		},
+		run: func(r *Report, o *Obligation, sr *SolveResult) ReplayResult {
+			obs := parseObserved(sr.Model, o.Observe)
+			age := int64(10)
+			if e, ok := smtBVToBig(obs["exp"]); ok {
+				if n, ok2 := smtBVToBig(obs["now"]); ok2 {
+					d := new(big.Int).Sub(n, e)
+					if d.IsInt64() && d.Int64() > 0 && d.Int64() < 1<<40 {
+						age = d.Int64()
+					}
+				}
+			}
+			in := map[string]string{"seconds_past_expiry": fmt.Sprint(age)}
+			out, conf := goReplay(r, "cmd/keymasterd", "keymasterd_replay_test.go", "TestVerifReplayExpiredStorageRecord", in)
+			return ReplayResult{Confirmed: conf, Summary: replaySummary(out), Inputs: in, Output: truncate(out, 4000), Driver: "TestVerifReplayExpiredStorageRecord"}
+		},
+	})
+}
+
 var intRe = regexp.MustCompile(`\(?-?[0-9]+\)?`)
